@@ -30,6 +30,9 @@ type Case struct {
 	// ReadNoSep: the configuration is merged with PathSep(".") but read without a PathSep option (top-level names
 	// and a child handle only): the names of references were bound when the strings were merged
 	ReadNoSep bool `json:"read_nosep,omitempty"`
+	// EnvOrder: the Env options of the reading calls, as indices into Envs in the order given; an index may occur
+	// more than once (an Env config given again counts as added most recently). Empty: each once, in order.
+	EnvOrder []int `json:"env_order,omitempty"`
 }
 
 type Later struct {
@@ -38,7 +41,7 @@ type Later struct {
 }
 
 func genCase(t *rapid.T) Case {
-	g := &vx.GCfg{Depth: runlog.Pick(2, 3), Names: vx.Names, NoDollar: runlog.IsOpen("D27"), EnvExprs: true}
+	g := &vx.GCfg{Depth: runlog.Pick(2, 3), Names: vx.Names, NoDollar: runlog.IsOpen("D27"), EnvExprs: true, ResolverCfgs: true}
 	c := Case{Layers: []*vx.Node{g.GenRoot(t)}}
 	nl := rapid.IntRange(0, 2).Draw(t, "nlayers")
 	for i := 0; i < nl; i++ {
@@ -74,6 +77,12 @@ func genCase(t *rapid.T) Case {
 		}
 	}
 	c.ReadNoSep = rapid.IntRange(0, 3).Draw(t, "readnosep") == 0
+	if len(c.Envs) >= 2 && rapid.IntRange(0, 2).Draw(t, "envorder") == 0 {
+		n := rapid.IntRange(len(c.Envs), len(c.Envs)+2).Draw(t, "nenvopts")
+		for i := 0; i < n; i++ {
+			c.EnvOrder = append(c.EnvOrder, rapid.IntRange(0, len(c.Envs)-1).Draw(t, "envidx"))
+		}
+	}
 	if rapid.IntRange(0, 7).Draw(t, "samename") == 0 {
 		// the same name computed in the own tree and in an Env config, both reached within one read: each
 		// reference is looked up in the tree the referencing setting lives in first
@@ -235,6 +244,31 @@ func runCase(c Case, r *runlog.R) error {
 	if c.ReadNoSep {
 		readOpts = live.NoSep()
 	}
+	// the Env options of the reads, in the order the case gives (every Env config at least once)
+	ordered := func(envs []*vx.Node) []*vx.Node { return envs }
+	if len(c.EnvOrder) > 0 {
+		order := append([]int(nil), c.EnvOrder...)
+		for i := range c.Envs {
+			seen := false
+			for _, o := range order {
+				seen = seen || o == i
+			}
+			if !seen {
+				order = append(order, i)
+			}
+		}
+		readOpts = live.WithEnvOrder(order, c.ReadNoSep)
+		ordered = func(envs []*vx.Node) []*vx.Node {
+			var out []*vx.Node
+			for _, i := range order {
+				if i >= 0 && i < len(envs) {
+					out = append(out, envs[i])
+				}
+			}
+			return out
+		}
+		r.Class("Env options in a generated order, some given twice")
+	}
 	cfg := ucfg.New()
 	var root *vx.Node
 	nt := false
@@ -256,7 +290,7 @@ func runCase(c Case, r *runlog.R) error {
 		} else {
 			root = vx.MergeModel(root, layer)
 		}
-		w := &vx.World{Root: root, Envs: c.Envs, Resolvers: c.Resolvers}
+		w := &vx.World{Root: root, Envs: ordered(c.Envs), Resolvers: c.Resolvers}
 		n, err := readAll(fmt.Sprintf("after layer %d", li), c, cfg, root, w, readOpts, li > 0, r)
 		if err != nil {
 			return err
@@ -281,7 +315,7 @@ func runCase(c Case, r *runlog.R) error {
 				live.Tables[i] = t
 			}
 		}
-		w := &vx.World{Root: root, Envs: envs, Resolvers: live.Tables}
+		w := &vx.World{Root: root, Envs: ordered(envs), Resolvers: live.Tables}
 		n, err := readAll("after the resolvers' answers and the Env configs changed (same Option values)", c, cfg, root, w, readOpts, true, r)
 		if err != nil {
 			return err
